@@ -32,15 +32,16 @@ def model(ctx):
     askers = ["A", "B", "T"]
     # (MaxReq, MaxPer, Cancels, MaxDown); every transition of these instances is replayed on real agents
     small = (2, 2, 1, 0) if ctx.quick() else (3, 2, 1, 0)
-    downinst = (2, 1, 0, 1) if ctx.quick() else (2, 2, 1, 1)     # with a target's connection breaking
+    downinst = (2, 2, 0, 1) if ctx.quick() else (2, 2, 1, 1)     # with a target's connection breaking
+    downaskers = ["A", "T"] if ctx.quick() else askers
     # exhaustive check only
     bigs = [(2, 2, 1, 1)] if ctx.quick() else [(4, 2, 1, 0), (3, 2, 0, 1)]
     w = 2 if ctx.quick() else 4
 
-    def ideal_job(bounds, name):
+    def ideal_job(bounds, name, who=askers):
         def job(c):
             fn = "MC-%s.cfg" % name
-            return c.tlc("Control", fn, files={fn: cfg(askers, *bounds, emit=True)}, name="Control-" + name, workers=w)
+            return c.tlc("Control", fn, files={fn: cfg(who, *bounds, emit=True)}, name="Control-" + name, workers=w)
         return job
 
     def dev_job(d):
@@ -49,7 +50,7 @@ def model(ctx):
             return c.tlc("Control", fn, files={fn: cfg(SEED_ASKERS[d], *SEED_CFG[d], dev=[d], invs=SEED_INVS.get(d, PROP_INVS))},
                          expect_violation=True, name="Control-" + d, workers=2)
         return job
-    res = par(ctx, [ideal_job(small, "replayed"), ideal_job(downinst, "replayed-down")] + [dev_job(d) for d in DEVS])
+    res = par(ctx, [ideal_job(small, "replayed"), ideal_job(downinst, "replayed-down", downaskers)] + [dev_job(d) for d in DEVS])
     ideals = res[:2]
     for r in ideals:
         if r.violated:
@@ -60,7 +61,7 @@ def model(ctx):
             raise vf.Infra("deviation %s not detected by the invariants (vacuous model)" % d)
         caught[d] = r.violated
         seeds.append({"name": d, "steps": trace_actions(r)})
-    return {"askers": askers, "bigs": bigs, "small": small, "downinst": downinst, "ideals": ideals, "caught": caught,
+    return {"askers": askers, "bigs": bigs, "small": small, "downinst": downinst + (",".join(downaskers),), "ideals": ideals, "caught": caught,
             "seeds": seeds}
 
 
@@ -87,7 +88,7 @@ def replay(ctx, mdl, shards=None, stress=None):
     inp = os.path.join(ctx.work, "control_paths.json")
     vf.write_json(inp, {"paths": paths, "scenarios": mdl["seeds"]})
     if shards is None:
-        shards = 2 if ctx.quick() else 6
+        shards = 3 if ctx.quick() else 6
     rounds, per = stress or ((25, 2) if ctx.quick() else (400, 3))
 
     def shard_job(i):
